@@ -13,7 +13,9 @@ FragsMarkup == { <<60>>, <<62>>, <<47>>, <<63>>, <<33>>, <<45>>, <<45, 45>>,
            <<68, 79, 67, 84, 89, 80, 69>>, <<100>>, <<120, 109, 108>>, <<32>>,
            <<97>>, <<98>>, <<34>>, <<39>>, <<61>>, <<195, 169>> }
 
-Seeds == { <<60,97,62,60,47,97,12,62,60,47,97,32,12,32,9,13,10,62>>,   \* <a></a FF></a SP FF SP TAB CR LF>   (form feed is white space for Rust, not for XML)
+Seeds == { <<60,97,62,60,47,32,62,60,47,9,13,10,62,60,32,62,60,47,32,62>>,   \* <a></ ></ TAB CR LF>< ></ >   (end tags that are white space only)
+           <<60,97,32,107,61,34,38,35,59,34,62,38,35,120,59,38,35,59,60,47,97,62>>,   \* <a k="&#;">&#x;&#;</a>   (references without digits)
+           <<60,97,62,60,47,97,12,62,60,47,97,32,12,32,9,13,10,62>>,   \* <a></a FF></a SP FF SP TAB CR LF>   (form feed is white space for Rust, not for XML)
            <<60,97,62,12,120,12,60,47,97,62,12>>,                  \* <a>FF x FF</a>FF
            <<60,97,12,98,61,34,49,34,11,47,62>>,                   \* <a FF b="1" VT/>
            <<60,33,45,45,45,62,45,45,62>>,                         \* <!--->-->
@@ -45,7 +47,7 @@ Focus(FragMode) ==
       [] FragMode = "pi"      -> [pre |-> <<60,63>>, fr |-> {<<63>>, <<62>>, <<97>>, <<120,109,108>>, <<32>>}]
       \* every kind of white space (TAB LF CR) and the look-alike that is none for XML (FF) inside start tags, end tags,
       \* processing instructions and text
-      [] FragMode = "ws"      -> [pre |-> <<60,97>>, fr |-> {<<9>>, <<10>>, <<13>>, <<12>>, <<62>>, <<47>>, <<60,47,97>>, <<120>>, <<60,63,112>>, <<63,62>>}]
+      [] FragMode = "ws"      -> [pre |-> <<60,97>>, fr |-> {<<9>>, <<10>>, <<13>>, <<12>>, <<62>>, <<47>>, <<60,47,97>>, <<60,47>>, <<120>>, <<60,63,112>>, <<63,62>>}]
       [] OTHER                -> [pre |-> <<60,97>>, fr |-> {<<34>>, <<39>>, <<62>>, <<47>>, <<61>>, <<32>>, <<97>>}]      \* "tag"
 InputsOf(FragMode, K) ==
     IF FragMode \in {"doctype", "comment", "comment2", "cdata", "pi", "tag", "ws"}
